@@ -22,7 +22,18 @@ DETERMINISTIC_ELEMS = {'int', 'bool'}
 
 def _keyed_sort(call: ast.Call) -> bool:
     """sorted / min / max with a key: elements that tie on the key keep their input order (first wins), i.e. set order"""
-    return isinstance(call.func, ast.Name) and call.func.id in ('sorted', 'min', 'max') and any(k.arg == 'key' for k in call.keywords)
+    if not (isinstance(call.func, ast.Name) and call.func.id in ('sorted', 'min', 'max') and any(k.arg == 'key' for k in call.keywords)):
+        return False
+    # a key that contains the element itself as a component (`key=lambda v: (rank(v), v)`) or is the identity orders distinct
+    # elements totally: nothing ties, the input order does not show
+    key = next(k.value for k in call.keywords if k.arg == 'key')
+    if isinstance(key, ast.Lambda) and len(key.args.args) == 1 and not key.args.vararg and not key.args.kwarg:
+        v = key.args.args[0].arg
+        body = key.body
+        comps = body.elts if isinstance(body, ast.Tuple) else [body]
+        if any(isinstance(c, ast.Name) and c.id == v for c in comps):
+            return False
+    return True
 
 
 @dataclass
@@ -392,6 +403,10 @@ class OrderAnalysis:
             par = parents.get(cur)
             if par is None:
                 return False, ''
+            # used for its truth value only (`if not xs:`, `while xs:`, `xs and ..`, `bool(xs)`, `x if xs else y`, assert): empty or not
+            if (isinstance(par, ast.UnaryOp) and isinstance(par.op, ast.Not)) or (isinstance(par, (ast.If, ast.While, ast.IfExp, ast.Assert)) and par.test is cur) \
+                    or (isinstance(par, ast.BoolOp) and cur in par.values[:-1]):
+                return True, 'used for its truth value only (empty or not)'
             if isinstance(par, ast.comprehension):
                 comp = parents.get(par)
                 if isinstance(comp, ast.SetComp):
